@@ -93,7 +93,10 @@ class ExprMixin(object):
       if v.py is not None:
         return z3.BoolVal(len(v.py) > 0)
       return z3.And(v.t != 0, self.strlen(v.t) > 0)
-    if ty.k in ('list', 'dict', 'set', 'deque'):
+    if ty.k == 'set':
+      nonempty = self.set_mem_arr(st, v) != z3.EmptySet(base_sort(ty.args[0]))
+      return z3.And(v.t != 0, nonempty) if ty.opt else nonempty
+    if ty.k in ('list', 'dict', 'deque'):
       nonempty = self.container_len(st, v) > 0
       return z3.And(v.t != 0, nonempty) if ty.opt else nonempty
     if ty.k == 'ref':
@@ -699,6 +702,9 @@ class ExprMixin(object):
     if isinstance(cont, V) and cont.ty.k == 'tuple':
       parts = [self.eq_vals(st, cx, x, it) for it in cont.items]
       return z3.Or(*parts) if parts else z3.BoolVal(False)
+    if isinstance(cont, V) and cont.ty.k == 'ref' and self.dictlike_info(cont.ty) is not None:
+      f = self.dl_field(self.dictlike_info(cont.ty), x, None)
+      return self.load_field(st, cont.t, cont.ty.name, 'has_' + f).t
     if isinstance(cont, V) and cont.ty.k == 'set':
       return z3.Select(self.set_mem_arr(st, cont), coerce(x, cont.ty.args[0]))
     if isinstance(cont, V) and cont.ty.k == 'dict':
